@@ -79,12 +79,15 @@ def newIdGo (ids : List String) (pre : String) : (i fuel : Nat) → Except PyErr
 /-- `_new_id(template)`: the lowest free `template % i` -/
 def newId (root : Node) (pre : String) : Except PyErr String := newIdGo (idsOf root) pre 0 65536
 
+/-- the id-stripping step of `_resolve_use` (`for el in new_el.getiterator("*"): del el.attrib["id"]`) -/
+def stripId : Node → List Node := fun x => match x with
+  | .elem u t a cs => [.elem u t (a.del "id") cs]
+  | y => [y]
+
 /-- deep copy with fresh uids and every `id` stripped (`copy.deepcopy` + the id loop) -/
 def copyStripIds (n : Node) : DocM Node := do
   let s ← get
-  let stripped := match Node.rewrite (fun x => match x with
-      | .elem u t a cs => [.elem u t (a.del "id") cs]
-      | y => [y]) n with
+  let stripped := match Node.rewrite stripId n with
     | [r] => r
     | _ => n
   let (c, k) := Node.number s.nextUid stripped
